@@ -433,6 +433,7 @@ struct TypedGen {
   bool optDerived = true;             // context may contain derived globals that carry data directly (D..)
   int optMinBase = 0;                 // minimal number of elements of a base set
   bool optRichTemplates = false;      // every function is a template whose argument types are tuples / sets of tuples / nested sets over shared radicals
+  bool optFreeProjections = false;    // Pr with arbitrary index lists (repeated, permuted) instead of increasing ones
   bool optReuseNames = false;         // binders prefer names whose earlier scope has ended (legal re-declaration in sibling / domain scopes)
 
   explicit TypedGen(pbt::Ctx& ctx) : c(ctx) {}
@@ -729,6 +730,15 @@ struct TypedGen {
       }
       case 39: {  // big projection of a set of tuples
         std::vector<Ty> want = t.elem().isTuple() ? t.elem().comps : std::vector<Ty>{t.elem()};
+        if (optFreeProjections && c.chance(2, 3)) {
+          std::vector<Ty> src;  // every wanted type at least once, sometimes again, sometimes a stranger
+          for (auto& w : want) if (std::find(src.begin(), src.end(), w) == src.end() || c.chance(1, 3)) src.push_back(w);
+          if (c.coin()) src.insert(src.begin() + c.ipick(0, static_cast<int>(src.size())), randType(1));
+          if (src.size() < 2) src.push_back(randType(1));
+          std::vector<int> ix;
+          for (auto& w : want) { std::vector<int> pos; for (size_t i = 0; i < src.size(); ++i) if (src[i] == w) pos.push_back(static_cast<int>(i + 1)); ix.push_back(c.oneof(pos)); }
+          return mkIdx(TID::BIGPR, ix, {genTerm(Ty::Set(Ty::Tuple(src)), depth - 1)});
+        }
         std::vector<Ty> cs = want; std::vector<int> idx;
         const int extra = c.ipick(want.size() == 1 ? 1 : 0, 1);
         for (int i = 0; i < extra; ++i) cs.insert(cs.begin() + c.ipick(0, static_cast<int>(cs.size())), randType(1));
